@@ -10,7 +10,8 @@
 (*   node_pos (lattice id of every grid node by position, -2 = no lattice  *)
 (*   point there), dtype_ok / fill_ok (table name -> BOOLEAN), lon_ok,     *)
 (*   lat_ok, and the carried tables that the case supplies.                *)
-(* kind = "file": a sample file, judged for standard form only.            *)
+(* kind = "file": a sample file, judged for standard form and for the      *)
+(* number of faces the file itself declares.                               *)
 (* kind = "pair": two sample files describing one mesh; b's table is       *)
 (* already expressed in a's node ids by position.                          *)
 (* Every clause is a named operator; the verdict of a record is the set of *)
@@ -46,7 +47,9 @@ SameStart(r)  == FaceCount(r) /\ \A f \in 1..Len(r.exp) : GotFace(r.got, f) = Un
 (* ---- standard form ------------------------------------------------------------ *)
 StdDtype(g) == \A k \in DOMAIN g.dtype_ok : g.dtype_ok[k]      \* one flag per index table presented
 StdFill(g)  == \A k \in DOMAIN g.fill_ok : g.fill_ok[k]
-PadAtEnd(g) == \A f \in 1..Len(g.tbl) : PadOnlyAtEnd(g.tbl[f])
+\* Mesh!PadOnlyAtEnd, written linearly (sample files have rows of thousands of entries)
+PadTail(row) == \A j \in 1..(Len(row) - 1) : row[j] = PAD => row[j + 1] = PAD
+PadAtEnd(g) == \A f \in 1..Len(g.tbl) : PadTail(g.tbl[f])
 InRange(g)  == \A f \in 1..Len(g.tbl) : \A j \in 1..Len(g.tbl[f]) :
                   g.tbl[f][j] = PAD \/ g.tbl[f][j] \in 0..(g.n_node - 1)
 LonRange(g) == g.lon_ok
@@ -71,6 +74,11 @@ CarriedFaceEdge(r) ==
            THEN r.got.face_edge = r.carried.face_edge
            ELSE Has(r.got, "edge_node") /\
                 IsFaceEdgeTable(SrcMesh(r), r.got.edge_node, r.got.face_edge, MaxSize(SrcMesh(r)))
+\* only the edge table was supplied: the face_edge table derived afterwards indexes the carried edge table
+DerivedFaceEdge(r) ==
+    Has(r.carried, "derive_fe") =>
+      /\ Has(r.got, "face_edge_derived") /\ Has(r.got, "edge_node")
+      /\ IsFaceEdgeTable(SrcMesh(r), r.got.edge_node, r.got.face_edge_derived, MaxSize(SrcMesh(r)))
 RowsAsSets(G, C) == Len(G) = Len(C) /\ \A k \in 1..Len(C) : RowSet(G[k]) = RowSet(C[k]) /\ PadOnlyAtEnd(G[k]) /\ NoDupRow(G[k])
 CarriedEdgeFace(r) == Has(r.carried, "edge_face") => (Has(r.got, "edge_face") /\ RowsAsSets(r.got.edge_face, r.carried.edge_face))
 CarriedNodeFace(r) == Has(r.carried, "node_face") => (Has(r.got, "node_face") /\ RowsAsSets(r.got.node_face, r.carried.node_face))
@@ -96,6 +104,7 @@ CaseClauses(r) ==
     NodesKept       |-> NodesKept(r),
     CarriedEdgeNode |-> CarriedEdgeNode(r),
     CarriedFaceEdge |-> CarriedFaceEdge(r),
+    DerivedFaceEdge |-> DerivedFaceEdge(r),
     CarriedEdgeFace |-> CarriedEdgeFace(r),
     CarriedNodeFace |-> CarriedNodeFace(r),
     CarriedFaceFace |-> CarriedFaceFace(r),
@@ -109,7 +118,9 @@ FileClauses(r) ==
   [ StdDtype |-> StdDtype(r.got), StdFill |-> StdFill(r.got), PadAtEnd |-> PadAtEnd(r.got),
     InRange |-> InRange(r.got), LonRange |-> LonRange(r.got), LatRange |-> LatRange(r.got),
     EnoughCorners |-> EnoughCorners(r.got),
-    ShapeAgrees |-> r.got.n_face = Len(r.got.tbl) ]
+    ShapeAgrees |-> r.got.n_face = Len(r.got.tbl),
+    \* the number of elements the file itself declares (its face dimension / element blocks / polygon parts)
+    DeclaredFaceCount |-> Has(r, "declared_n_face") => r.got.n_face = r.declared_n_face ]
 \* two formats of one mesh: same face count, each face the same corner cycle (b expressed in a's node ids)
 PairClauses(r) ==
   [ PairFaceCount |-> Len(r.a) = Len(r.b),
